@@ -40,18 +40,14 @@ BINARY = "shapes"
 # a hang costs the whole time limit of the case).
 TIERS = {
     "quick": {
-        "cfg": {"MAXN": 3, "FULLN": 2, "LEAFS": "{1, 2}", "BRANCH": 2,
-                "FAMSEL": '{"full", "ring", "func1", "func2", "sim", "deep"}',
-                "DEPTHS": "{1000, 100000}", "BIGDEPTHS": "{}"},
+        "cfg": "MC_Shapes_quick.cfg",
         "cyc_per_op": {"create": 200, "send": 50, "collect": 60, "drop": 200,
                        "write": 90, "display": 90, "hashkey": 40, "hashset": 30,
                        "equal": 400, "hashfind": 20},
         "cyc_timeout_ms": 2500, "deep_small_timeout_ms": 10000, "deep_timeout_ms": 20000, "deep_big_timeout_ms": 60000,
     },
     "thorough": {
-        "cfg": {"MAXN": 4, "FULLN": 2, "LEAFS": "{1, 2}", "BRANCH": 2,
-                "FAMSEL": '{"full", "ring", "func1", "func2", "sim", "deep"}',
-                "DEPTHS": "{1000, 10000, 100000}", "BIGDEPTHS": "{1000000}"},
+        "cfg": "MC_Shapes_thorough.cfg",
         "cyc_per_op": {"create": 3000, "send": 600, "collect": 500, "drop": 3000,
                        "write": 1200, "display": 1200, "hashkey": 600, "hashset": 300,
                        "equal": 8000, "hashfind": 200},
@@ -165,6 +161,24 @@ def select_cyc(cases, per_op, seed):
     return out
 
 
+# ----------------------------------------------------------------------------- replay of heavy cases
+
+def par_replay(cases, work, timeout_ms, name, procs=14):
+    """vlib.replay gives one process per 20 cases; the deep cases are few and heavy (seconds each, some
+    run into the time limit), so they are spread over `procs` single-process replays run side by side."""
+    from concurrent.futures import ThreadPoolExecutor
+    if not cases:
+        return []
+    procs = max(1, min(procs, len(cases)))
+    chunks = [cases[i::procs] for i in range(procs)]
+    with ThreadPoolExecutor(max_workers=procs) as ex:
+        futs = [ex.submit(vlib.replay, ch, work, None, 1, timeout_ms, f"{name}_{i}", BINARY)
+                for i, ch in enumerate(chunks)]
+        res = [f.result() for f in futs]
+    by_id = {v["id"]: v for vs in res for v in vs}
+    return [by_id[c["id"]] for c in cases]
+
+
 # ----------------------------------------------------------------------------- judging
 
 def symptom(case, v):
@@ -271,6 +285,7 @@ def text_stat(case, v, stats):
     got = LABEL_RE.sub("c18s", got)
     if got.startswith('"') and got.endswith('"'):
         got = got[1:-1]
+    got = got.replace("\\n", "\n")
     ts = stats["text"]
     ts["printed"] += 1
     if got == case["meta"]["wr"]:
@@ -318,7 +333,7 @@ def run(tier, seed):
     if only in ("", "model"):
         stats["broken_variants_caught"] = run_models(r, work)
     # TLC as generator + oracle
-    cfg = cfg_variant("MC_Shapes_quick.cfg", work, dict(T["cfg"], SEED=seed), f"{tier}_s{seed}")
+    cfg = cfg_variant(T["cfg"], work, {"SEED": seed}, f"s{seed}")
     res = vlib.run_tlc("Shapes", cfg, os.path.join(work, "gen"), workers=WORKERS, timeout=1500)
     r.add_tlc(res)
     allc, seen = [], set()
@@ -349,7 +364,10 @@ def run(tier, seed):
         batches = [(f"cyc{i // 1800}", rest[i:i + 1800], T["cyc_timeout_ms"]) for i in range(0, len(rest), 1800)]
         for name, group, tmo in batches + [("cycgc", gc, 8 * T["cyc_timeout_ms"])]:
             if group:
-                verdicts = vlib.replay([strip(c) for c in group], work, jobs=12, timeout_ms=tmo, name=name, binary=BINARY)
+                if name == "cycgc":
+                    verdicts = par_replay([strip(c) for c in group], work, tmo, name, procs=12)
+                else:
+                    verdicts = vlib.replay([strip(c) for c in group], work, jobs=12, timeout_ms=tmo, name=name, binary=BINARY)
                 verdicts = confirm(group, verdicts, work, tmo, stats, r.findings)
                 judge(r, group, verdicts, stats)
     if only in ("", "deep"):
@@ -361,7 +379,7 @@ def run(tier, seed):
             if group:
                 # heavy cases first in every chunk would serialise; shuffle (seeded) to balance the jobs
                 random.Random(seed).shuffle(group)
-                verdicts = vlib.replay([strip(c) for c in group], work, jobs=12, timeout_ms=tmo, name=name, binary=BINARY)
+                verdicts = par_replay([strip(c) for c in group], work, tmo, name)
                 verdicts = confirm(group, verdicts, work, tmo, stats, r.findings)
                 judge(r, group, verdicts, stats)
     if os.environ.get("C18_DEBUG"):
